@@ -238,13 +238,28 @@ pub fn labels(n: usize, class: LabelClass) -> BoxedStrategy<Vec<String>> {
     }
     // generated suffix labels guarantee enough distinct names for large n
     let extra: Vec<String> = (0..n).map(|i| format!("g{i}")).collect();
-    pool.extend(extra);
+    pool.extend(extra.clone());
     let len = pool.len();
     // choose n distinct indices: shuffle a selection mask via subsequence + shuffle
-    proptest::sample::subsequence(pool, n..=n.min(len))
-        .prop_shuffle()
-        .boxed()
+    let general = proptest::sample::subsequence(pool, n..=n.min(len)).prop_shuffle();
+    if matches!(class, LabelClass::Quoted | LabelClass::Hostile) && n <= 9 {
+        // confusable label sets: labels that look like pieces of formula syntax / of each other when
+        // printed next to each other (e.g. and("a,b",c) vs and(a,"b,c"))
+        let mut conf: Vec<String> = CONFUSABLE.iter().map(|s| s.to_string()).collect();
+        if class == LabelClass::Hostile {
+            conf.extend(CONFUSABLE_HOSTILE.iter().map(|s| s.to_string()));
+        }
+        conf.extend(extra);
+        let cl = conf.len();
+        let confusable = proptest::sample::subsequence(conf, n..=n.min(cl)).prop_shuffle();
+        prop_oneof![6 => general, 1 => confusable].boxed()
+    } else {
+        general.boxed()
+    }
 }
+
+const CONFUSABLE: &[&str] = &["a", "b", "c", "a,b", "b,c", "a,b,c", "c,a", "a, b", "b ,c"];
+const CONFUSABLE_HOSTILE: &[&str] = &["not(a)", "and(a,b)", "or(b,c)", "not(b)", "neg(a)", "c(v)", "Const(T)"];
 
 pub fn needs_quotes(l: &str) -> bool {
     l.is_empty() || !l.chars().all(|c| c.is_ascii_alphanumeric())
